@@ -687,7 +687,7 @@ pub proof fn lemma_string_token_advance(p: (int, int), s: Seq<char>)
 //@@ REPLACE
 //@@< while let Some(&$nc) = it.peek() { match $nc {
 //@@> while let Some(verif_ref) = it.peek() invariant is_suffix(rest(*it), rest(*old(it))), no_nl(consumed(rest(*old(it)), rest(*it))), $number@.len() >= 1, (rest(*old(it)).len() - rest(*it).len()) == $number@.len() - 1 + $exp@.len() + (if $enum { 1int } else { 0int }), !$enum ==> $exp@.len() == 0, decreases rest(*it).len(), { let $nc = *verif_ref; /* ref pattern `Some(&c)` spelled as a deref: Verus does not take ref patterns */ match $nc {
-//@@ HAVOC pin=fbfdb3cfeca5
+//@@ HAVOC nopin
 //@@< '"' => { let mut string $$ } ' ' =>
 //@@> '"' => { verif_havoc_string_arm(c, it, state) } ' ' =>
 //@@ OUTLINE count=all
@@ -704,7 +704,7 @@ pub proof fn lemma_string_token_advance(p: (int, int), s: Seq<char>)
 //@@ ELSE
 #[verifier::loop_isolation(false)]
 //@@ FN src/parse/lex/tokenize.rs | free | into_tokens | props=C18,C03
-//@@ HAVOC pin=d523c0353221
+//@@ HAVOC nopin
 //@@< match c { ',' => $$ '"' => { let mut
 //@@> match c { /* every arm before the string arm is dropped in this unit (verified in unit LEX) */ '"' => { let mut
 //@@ HINT after
